@@ -331,6 +331,84 @@ def _shared_names(items):
     return out
 
 
+def _pipeline_chunk(cases):
+    mods = impl.load()
+    rbql, eng, rcsv, cu = mods
+    from ..text import s as S
+    out = []
+    d = tempfile.mkdtemp(prefix='rbqlverif_c13p_')
+    try:
+        inp = os.path.join(d, 'in.csv')
+        outp = os.path.join(d, 'out.csv')
+        for case in cases:
+            sigs = []
+            with open(inp, 'wb') as f:
+                f.write(S(case['text']).encode('utf-8'))
+            if os.path.exists(outp):
+                os.unlink(outp)
+            query = 'select *' if case['qk'] == 1 else 'select NR, a1'
+            base = {'impl': 'py', 'frontend': 'query_csv', 'in_policy': case['ipol'], 'out_policy': case['opol'], 'query': query, 'header': case['header']}
+            warnings = []
+            err = None
+            try:
+                rcsv.query_csv(query, inp, ',', case['ipol'], outp, ';', case['opol'], 'utf-8', warnings, bool(case['header']))
+            except Exception as e:  # noqa
+                err = (engine.project_error(eng, e)['cls'], str(e))
+            if case['rderr']:
+                rl = messages.record_and_line(err[1]) if err else None
+                if err is None or err[0] != 'io' or rl != (case['errnr'], case['errnl']):
+                    sigs.append(dict(base, what='malformed input: IO-handling error citing record and line', got=err, want=[case['errnr'], case['errnl']]))
+            elif case['hdrerr']:
+                nr = messages.near('record', err[1]) if err else None
+                if err is None or err[0] != 'runtime' or nr != case['hdrerr']:
+                    sigs.append(dict(base, what='record wider / narrower than the header under select *: runtime error at that record', got=err, want=case['hdrerr']))
+            elif err is not None:
+                sigs.append(dict(base, what='unexpected error', got=err[1][:160]))
+            else:
+                got = open(outp, 'rb').read().decode('utf-8')
+                if got != S(case['out']):
+                    sigs.append(dict(base, what='output text', got=got, want=S(case['out'])))
+                ks = messages.kinds(warnings)
+                gb = any(k[0] == 'bom' for k in ks)
+                gq = [k[1] for k in ks if k[0] == 'quoting']
+                gr = [k[1] for k in ks if k[0] == 'ragged']
+                gs = any(k[0] == 'separator' for k in ks)
+                if gb != case['bom']:
+                    sigs.append(dict(base, what='BOM warning', got=gb, want=case['bom']))
+                if (gq[0] if gq else 0) != case['firstdef']:
+                    sigs.append(dict(base, what='quoting warning', got=gq, want=case['firstdef']))
+                if (gr[0] if gr else []) != list(case['ragged']):
+                    sigs.append(dict(base, what='field-count warning', got=gr, want=case['ragged']))
+                if gs != case['wdelim']:
+                    sigs.append(dict(base, what='separator warning', got=gs, want=case['wdelim']))
+            out.append(sigs)
+    finally:
+        shutil.rmtree(d, ignore_errors=True)
+    return out
+
+
+def pipeline(run, label, alphabet, maxlen, header):
+    """query_csv at the level of text: Pipeline.tla (RefRead ; query ; WriteTable) enumerated by TLC, every case through the real query_csv with
+    different input and output dialects (',' in, ';' out)."""
+    d = tlcrun.new_scratch('c13p')
+    consts = {'DlmA': 44, 'DlmB': 0, 'EmitCases': 'TRUE', 'Recs': '{}', 'MaxRecs': 0, 'WPolicies': '{}', 'LineSeps': '{}',
+              'PAlphabet': '{' + ', '.join(map(str, alphabet)) + '}', 'PMaxLen': maxlen, 'InPolicies': '{"simple", "quoted", "quoted_rfc"}',
+              'OutPolicies': '{"simple", "quoted", "quoted_rfc"}', 'OutDlm': 59, 'WithHeader': 'TRUE' if header else 'FALSE'}
+    cfg = tlcrun.write_cfg(os.path.join(d, label + '.cfg'), constants=consts, init='PInit', next_='PNext', invariants=['ReReadable', 'PEmit'])
+    res = tlcrun.run_tlc('Pipeline', cfg, timeout=7200, heap='24g')
+    run.add_tlc('Pipeline:' + label, res)
+    want = sum(len(alphabet) ** k for k in range(maxlen + 1)) * 18
+    if len(res.cases) != want:
+        core.machinery_failure('%s: expected %d pipeline cases, got %d' % (label, want, len(res.cases)))
+    outs = par.pmap(_pipeline_chunk, res.cases, chunk=600)
+    for case, sigs in zip(res.cases, outs):
+        run.traces += 1
+        run.count(['pipeline', case['text'], case['ipol'], case['opol'], case['qk'], case['header']], nontrivial=len(case['text']) >= 2 and (34 in case['text'] or 10 in case['text'] or 59 in case['text']))
+        for sig in sigs:
+            run.violation(sig, {'kind': 'pipeline_case', 'case': case})
+    run.sample({'pipeline_case': res.cases[len(res.cases) // 2]})
+
+
 def run_family(run, label, queries, recsA, maxA, recsB='R_none', maxB=0, cli_every=7):
     d = tlcrun.new_scratch('c13')
     cfg = ec.engine_cfg(os.path.join(d, label + '.cfg'), queries, recsA, recsB, maxA, maxB, (False, True), (0,))
@@ -374,6 +452,8 @@ def check(run):
     run.assumptions = ['cell strings are CSV-inert (letters and digits), so turning output text back into rows needs no dialect logic in the harness', 'pandas and sqlite need column names: header cases only']
     run_family(run, 'frontends', 'Q_C13', 'R_2x2p', 2 if quick else 3, cli_every=9 if quick else 5)
     run_family(run, 'frontends-join', 'Q_C13join', 'R_2x2', 2, recsB='R_2x2', maxB=2, cli_every=40 if quick else 10)
+    pipeline(run, 'text-pipeline', [97, 34, 44, 59, 10, 32], 3 if quick else 5, False)
+    pipeline(run, 'text-pipeline-header', [97, 34, 44, 59, 10, 32], 3 if quick else 4, True)
     cli_environment_faults(run)
     ctl = core.Run(run.prop, run.tier, run.seed)
     if frontends.validate(ctl, 'cli', [{'tid': 'x', 'exit': 0, 'stdout_is_table': True, 'stderr_kinds': ['error'], 'outcome': 'ok'}], 'control') != {'x'}:
@@ -385,6 +465,11 @@ def replay(path):
     with open(path) as f:
         rep = json.load(f)
     run = core.Run('C13', 'quick', 0)
+    if rep['case']['kind'] == 'pipeline_case':
+        for sig in _pipeline_chunk([rep['case']['case']])[0]:
+            run.traces += 1
+            run.violation(sig, rep['case'])
+        return run.finish()
     if rep['case']['kind'] == 'cli_fault':
         cli_environment_faults(run)
         return run.finish()
